@@ -250,6 +250,9 @@ def evaluate_bundle(prop, spec, bdir, meta):
         fam = c.family.split('-')[0]
         res['families'][fam] = res['families'].get(fam, 0) + 1
         mo = mobs.get(cid)
+        if c.family.startswith('tokio'):
+            mo = {}     # run inside a real tokio runtime: not modelled, monitors only
+            res['tokio_cases'] = res.get('tokio_cases', 0) + 1
         if cid in gobs and 'GX' not in gobs[cid] and (
                 spec.get('modular') is True or
                 sorted(c.obs.get('G', '').split()) == sorted((mo or {}).get('G', '').split())):
@@ -259,7 +262,7 @@ def evaluate_bundle(prop, spec, bdir, meta):
             res['mismatches'].append(dict(tag='(case)', impl='present', model='missing', case_line=c.line))
         else:
             res['compared_cases'] += 1
-            for t in sorted(set(c.obs) | set(mo)):
+            for t in (sorted(set(c.obs) | set(mo)) if not c.family.startswith('tokio') else []):
                 a, b = c.obs.get(t), mo.get(t)
                 if t == 'P' and a is None:
                     continue   # hooks feature off
